@@ -44,12 +44,48 @@ pub fn navigate(current: &str, rel: &str) -> Result<String, &'static str> {
 pub enum Entry {
     Marker(u8),
     Include(String),
+    /// a conditional block with constant conditions: the entries of the arm that is taken, those of the arm that is
+    /// not, and the way it is written (0: `#if 1 == 1 {taken} #else {dead}`, 1: `#if 1 == 0 {dead} #else {taken}`,
+    /// 2: `#if false {dead} #elif true {taken}`, 3: `#if true {taken}` with the dead entries dropped)
+    Cond { taken: Vec<Entry>, dead: Vec<Entry>, form: u8 },
 }
 
 #[derive(Clone, Debug, Default)]
 pub struct SrcFile {
     pub once: bool,
     pub entries: Vec<Entry>,
+}
+
+fn entries_text(s: &mut String, entries: &[Entry], indent: &str) {
+    for e in entries {
+        match e {
+            Entry::Marker(m) => s.push_str(&format!("{}#d8 {}\n", indent, m)),
+            Entry::Include(p) => s.push_str(&format!("{}#include \"{}\"\n", indent, p.replace('\\', "\\\\"))),
+            Entry::Cond { taken, dead, form } => {
+                let inner = format!("{}    ", indent);
+                let mut arm = |s: &mut String, head: &str, es: &[Entry]| {
+                    s.push_str(&format!("{}{}\n{}{{\n", indent, head, indent));
+                    entries_text(s, es, &inner);
+                    s.push_str(&format!("{}}}\n", indent));
+                };
+                match form % 4 {
+                    0 => {
+                        arm(s, "#if 1 == 1", taken);
+                        arm(s, "#else", dead);
+                    }
+                    1 => {
+                        arm(s, "#if 1 == 0", dead);
+                        arm(s, "#else", taken);
+                    }
+                    2 => {
+                        arm(s, "#if false", dead);
+                        arm(s, "#elif true", taken);
+                    }
+                    _ => arm(s, "#if true", taken),
+                }
+            }
+        }
+    }
 }
 
 pub fn file_text(f: &SrcFile) -> String {
@@ -59,10 +95,7 @@ pub fn file_text(f: &SrcFile) -> String {
         if i == once_at {
             s.push_str("#once\n");
         }
-        match e {
-            Entry::Marker(m) => s.push_str(&format!("#d8 {}\n", m)),
-            Entry::Include(p) => s.push_str(&format!("#include \"{}\"\n", p.replace('\\', "\\\\"))),
-        }
+        entries_text(&mut s, std::slice::from_ref(e), "");
     }
     if f.once && once_at >= f.entries.len() {
         s.push_str("#once\n");
@@ -79,6 +112,8 @@ fn go(
         out: &mut Vec<u8>,
         budget: &mut usize,
         std_count: &mut usize,
+        in_cond: bool,
+        dead: bool,
     ) -> Result<(), String> {
         if once.contains(name) {
             return Ok(());
@@ -91,12 +126,51 @@ fn go(
             return Err(format!("file not found: {}", name));
         };
         if f.once {
+            if in_cond {
+                // whether an inclusion inside an #if block takes effect is only known later: it cannot be "the one"
+                return Err(format!("{}: once-file included from inside a conditional block", name));
+            }
             once.insert(name.to_string());
         }
         stack.push(name.to_string());
-        for e in &f.entries {
+        go_entries(files, std_names, name, &f.entries, stack, once, out, budget, std_count, in_cond, dead)?;
+        stack.pop();
+        Ok(())
+}
+
+#[allow(clippy::too_many_arguments)]
+fn go_entries(
+        files: &HashMap<String, SrcFile>,
+        std_names: &HashSet<String>,
+        name: &str,
+        entries: &[Entry],
+        stack: &mut Vec<String>,
+        once: &mut HashSet<String>,
+        out: &mut Vec<u8>,
+        budget: &mut usize,
+        std_count: &mut usize,
+        in_cond: bool,
+        dead: bool,
+    ) -> Result<(), String> {
+        for e in entries {
             match e {
-                Entry::Marker(m) => out.push(*m),
+                Entry::Marker(m) => {
+                    if !dead {
+                        out.push(*m)
+                    }
+                }
+                Entry::Cond { taken, dead: not_taken, form } => {
+                    // inclusions are resolved in BOTH arms, in the order in which the arms are written
+                    let t_first = form % 4 == 0 || form % 4 == 3;
+                    let not_taken: &[Entry] = if form % 4 == 3 { &[] } else { not_taken };
+                    if t_first {
+                        go_entries(files, std_names, name, taken, stack, once, out, budget, std_count, true, dead)?;
+                        go_entries(files, std_names, name, not_taken, stack, once, out, budget, std_count, true, true)?;
+                    } else {
+                        go_entries(files, std_names, name, not_taken, stack, once, out, budget, std_count, true, true)?;
+                        go_entries(files, std_names, name, taken, stack, once, out, budget, std_count, true, dead)?;
+                    }
+                }
                 Entry::Include(p) => {
                     let target = navigate(name, p).map_err(|e| format!("`{}` in {}: {}", p, name, e))?;
                     if target.starts_with(STD_PREFIX) && !std_names.contains(&target) && !files.contains_key(&target) {
@@ -110,17 +184,16 @@ fn go(
                         }
                         return Err(format!("inclusion cycle through {}", target));
                     }
-                    if target.starts_with(STD_PREFIX) {
+                    if target.starts_with(STD_PREFIX) && !dead {
                         *std_count += 1;
                         if *std_count > 1 {
                             return Err("unspecified: library file included twice (it declares named rule blocks)".into());
                         }
                     }
-                    go(files, std_names, &target, stack, once, out, budget, std_count)?;
+                    go(files, std_names, &target, stack, once, out, budget, std_count, in_cond, dead)?;
                 }
             }
         }
-        stack.pop();
         Ok(())
 }
 
@@ -137,7 +210,7 @@ pub fn expand_many(files: &HashMap<String, SrcFile>, std_names: &HashSet<String>
     let mut once = HashSet::new();
     let mut std_count = 0;
     for root in roots {
-        go(files, std_names, root, &mut vec![], &mut once, &mut out, &mut budget, &mut std_count)?;
+        go(files, std_names, root, &mut vec![], &mut once, &mut out, &mut budget, &mut std_count, false, false)?;
     }
     Ok(out)
 }
